@@ -4,6 +4,7 @@ use crate::desc::*;
 use crate::guard::{observe, panic_site, Obs};
 use crate::json::J;
 use crate::names::Fmt;
+use narsese::conversion::string::impl_enum::NarseseFormat as EnumFormat;
 use narsese::conversion::inter_type::lexical_fold::TryFoldInto;
 use narsese::enum_narsese::Narsese;
 use narsese::lexical::Narsese as LexNarsese;
@@ -67,6 +68,56 @@ pub fn lex_fold_parse(f: Fmt, s: &str) -> Out {
     }
 }
 
+/// lexical `parse_term` entry + fold on the text of a bare term
+pub fn lex_term_fold_parse(f: Fmt, s: &str) -> Out {
+    match observe(|| -> Result<String, String> {
+        let lx = f.l().parse_term(s).map_err(|e| format!("lexical parse_term: {}", e))?;
+        let v: narsese::enum_narsese::Term = lx.try_fold_into(f.e()).map_err(|e| format!("fold: {:?}", e))?;
+        Ok(format!("T<{}>", canon_real(&v)))
+    }) {
+        Obs::Ret(Ok(c)) => Out::Ok(c),
+        Obs::Ret(Err(e)) => Out::Err(e),
+        Obs::Panic(p) => Out::Panic(p),
+    }
+}
+
+/// A little work in format `g` through every parser and formatter, meant to be the *first* thing a
+/// thread does: whatever the library initialises lazily per thread or per process is then
+/// initialised from format `g` rather than from the format under test.
+pub fn prelude(g: Fmt) {
+    let t = TD::bin(
+        Kind::Inh,
+        TD::comp(Kind::SetExt, vec![TD::word("a-b"), TD::atom(Kind::IVar, "x")]),
+        TD::comp(Kind::Product, vec![TD::word("c"), TD::bin(Kind::EquivConc, TD::word("d"), TD::word("e"))]),
+    );
+    let v = ND::Task(KD { sent: SD { term: t, punct: PunctD::Judgement, stamp: StampD::Present, truth: vec![1.0, 0.9] }, budget: vec![0.5] }).build();
+    let _ = observe(|| {
+        let s = g.e().format_narsese(&v);
+        let _ = g.e().parse::<Narsese>(&s);
+        if let Ok(lx) = g.l().parse(&s) {
+            let _ = g.l().format_narsese(&lx);
+            let _: Result<Narsese, _> = lx.try_fold_into(g.e());
+        }
+        let mut h = std::collections::hash_map::DefaultHasher::new();
+        if let Narsese::Task(t) = &v {
+            use narsese::api::GetTerm;
+            std::hash::Hash::hash(t.get_term(), &mut h);
+        }
+    });
+}
+
+/// run `job` as the first work of a freshly spawned thread, after `prelude(g)` when `g` is given
+pub fn on_fresh_thread<R: Send + 'static>(g: Option<Fmt>, job: impl FnOnce() -> R + Send + 'static) -> Option<R> {
+    std::thread::spawn(move || {
+        if let Some(g) = g {
+            prelude(g);
+        }
+        job()
+    })
+    .join()
+    .ok()
+}
+
 /// lexical parser + fold, returning the value itself
 pub fn lex_fold_value(f: Fmt, s: &str) -> Option<Narsese> {
     match observe(|| -> Option<Narsese> {
@@ -79,6 +130,30 @@ pub fn lex_fold_value(f: Fmt, s: &str) -> Option<Narsese> {
 }
 
 /// format a built value with the enum formatter
+/// `parse_multi` fed through one of several kinds of iterable (chosen from the batch itself, so a
+/// replay takes the same one): a Vec, a mapped slice iterator, a filtered one (lower size hint 0),
+/// `from_fn` (no upper size hint), or - when no input contains a line break - the lines of one text
+pub fn parse_multi_any<'a>(e: &'a EnumFormat<&'static str>, seq: &'a [String], joined: &'a mut String) -> Vec<Result<Narsese, narsese::conversion::string::impl_enum::ParseError>> {
+    let kind = (seq.len() + seq.first().map_or(0, |s| s.len())) % 5;
+    match kind {
+        0 => e.parse_multi(seq.iter().map(|s| s.as_str()).collect::<Vec<&str>>()),
+        1 => e.parse_multi(seq.iter().map(|s| s.as_str())),
+        2 => e.parse_multi(seq.iter().map(|s| s.as_str()).filter(|_| true)),
+        3 => {
+            let mut it = seq.iter();
+            e.parse_multi(std::iter::from_fn(move || it.next().map(|s| s.as_str())))
+        }
+        _ => {
+            if seq.is_empty() || seq.iter().any(|s| s.is_empty() || s.contains('\n') || s.ends_with('\r')) {
+                e.parse_multi(seq.iter().map(|s| s.as_str()).skip_while(|_| false))
+            } else {
+                *joined = seq.join("\n");
+                e.parse_multi(joined.lines())
+            }
+        }
+    }
+}
+
 pub fn enum_format(f: Fmt, v: &Narsese) -> Result<String, String> {
     match observe(|| f.e().format_narsese(v)) {
         Obs::Ret(s) => Ok(s),
